@@ -102,6 +102,7 @@ def _mk_quant(skeleton, n, greedy_bits):
         for it, k in zip(items, exp):
             if it[1:] == (1, 1, True) and isinstance(it[0], str) and len(pats) and not isinstance(pats[items.index(it)], MQ):
                 continue
+            check(f't{qi}' in m.tags, 'quantifier.capture_tag_missing_from_successful_match', (skeleton, seq, bounds, qi, sorted(m.tags)))
             got = len(m.tags[f't{qi}'])
             check(got == k, 'quantifier.captures_differ_from_regex_backtracking_order', (skeleton, seq, bounds, qi, got, exp))
             qi += 1
@@ -136,6 +137,7 @@ def _mk_bare(n, md):
         check(m is not None, 'bare_quantifier.rejects_what_the_regex_accepts', (seq, md, pc.R(f0), pc.R(f1), exp))
         if md:
             # position of the middle capture = number of elements the first quantifier took
+            check('x' in m.tags, 'bare_quantifier.capture_tag_missing_from_successful_match', (seq, md, sorted(m.tags)))
             check(m.tags['x'] == seq[exp[0]], 'bare_quantifier.capture_position_differs_from_regex', (seq, md, exp))
         cover('accept')
     return k1b
